@@ -166,7 +166,8 @@ def run_impl(table: Table, text: bytes, depth: int):
 # strategies for hit configurations
 # ---------------------------------------------------------------------------------------------
 TYPES = ["", "t1", "t2"]
-KINDS = ["plain", "plain", "case", "dec", "kids", "deckids", "restate"]
+KINDS = ["plain", "plain", "case", "dec", "swap", "kids", "deckids", "restate"]
+_SWAP = bytes.maketrans(b"abAB", b"baBA")
 
 
 def make_hit(value: bytes, s: int, e: int, kind: str, typ: str, variant: int, parent_typ: str = ""):
@@ -177,6 +178,9 @@ def make_hit(value: bytes, s: int, e: int, kind: str, typ: str, variant: int, pa
         return H(typ, sl.swapcase(), "cs", s, e)
     if kind == "dec":
         return H(typ, (b"<" + sl + b">") if variant % 2 == 0 else (sl[::-1] + b"x"), "d", s, e)
+    if kind == "swap":
+        # a decoding that keeps the length and carries no label (nothing but the value tells it from a plain hit)
+        return H(typ, sl.translate(_SWAP), "", s, e)
     if kind == "kids":
         return H(typ, sl, "", s, e, [H("k", sl[:1], "", 0, 1)] + ([H("k2", sl[-1:] + b"y", "kd", len(sl) - 1, len(sl), [H("kk", b"z", "", 0, 1)])] if variant % 2 else []))
     if kind == "deckids":
